@@ -222,6 +222,7 @@ def configs(tier: str):
         dict(fill_value=7, fills={}),
         dict(fill_value=2.5, fills={'I': 9, 'S': 'zz'}),
         dict(fill_value=None, fills={'F': -1.0, 'B': True}),
+        dict(fill_value=0.5, fills={'B': 1e-9}),   # truthy fills whose int() is 0 (seeded change C12_r2mut2)
     ]
     for n_old in range(0, N + 1):
         for n_new in range(0, N + 1):
